@@ -9,7 +9,13 @@ declare -A CHK=( [B1-error-offset]="C10 C01 C03" [B2-array-layout]="C04 C05 C09"
                  # written by sub-agents that were asked for property-preserving changes (and ran their own differential tests)
                  [B17-escape-line-separators]="C04 C05 C09" [B18-parse-string-trim]="C01 C02 C08 C14 C10 C03" [B19-iterative-stable-sort]="C19 C17 C18"
                  [B20-compare-json-shadow]="C16 C18 C19 C14 C07" [B21-print-number-route]="C04 C05 C09" [B22-delete-nonrecursive]="C07 C06 C11 C08 C14"
-                 [B23-inithooks-local]="C14" [B24-minify-restructured]="C13" )
+                 [B23-inithooks-local]="C14" [B24-minify-restructured]="C13"
+                 # second batch by sub-agents (one area of the library each, own differential tests incl. fault injection and sanitizers)
+                 [B25-string-decoder-tables]="C01 C02 C03 C10 C08 C14" [B26-number-scanner-and-driver]="C01 C02 C03 C10 C08 C04" [B27-parse-container-helper]="C01 C02 C03 C10 C08 C14"
+                 [B28-print-number-string-tables]="C04 C05 C09 C08 C14" [B29-print-buffer-machinery]="C04 C05 C09 C08 C14 C07" [B30-tree-edit-helpers]="C06 C07 C08 C14 C11 C19 C16"
+                 [B31-generic-bulk-iterative-dup-delete]="C06 C07 C08 C11 C14" [B32-compare-one-pass-minify-cursors]="C12 C13 C06 C04" [B33-alloc-plumbing]="C14 C08 C07 C01 C04 C09 C17"
+                 [B34-pointer-token-decode-once]="C15 C16 C17 C07" [B35-apply-patch-per-operation]="C16 C17 C19 C07" [B36-patch-generation-path-buffer]="C17 C18 C07 C16"
+                 [B37-sort-rewrite]="C19 C17 C18 C16" [B38-printer-layout-helpers]="C04 C05 C09 C08 C14" )
 for b in ${@:-${!CHK[@]}}; do
   for p in ${CHK[$b]}; do
     OUT=$(MUT_LINES=2 ./tools/mutate.sh benign/$b.diff $p quick 2>&1)
